@@ -15,14 +15,14 @@ class TheCheck(Check):
     prop = "C20"
     module = "conf"
     harness = "conf"
-    wraps = ("popen", "pclose")
+    wraps = ("popen", "pclose", "open")
     rule = ("grammar-generated INI / Apache-style documents x option tables x parser flags, executed by "
             "qconfig_parse_str / qaconf parse() (ASan+UBSan+LSan build, exactly sized buffers, controlled getenv, "
             "popen stubbed) and by the Lean model; distinct_nontrivial = distinct documents")
     assumptions = [
         "hand model of qconfig.c / qaconf.c validated on the explored documents only",
         "constants (MAX_LINESIZE, QAC_* values, expansion bounds) regenerated from the source (translator/confconsts.py)",
-        "qconfig_parse_file (@INCLUDE splice, file loading) is out of model; qconfig_parse_str carries the INI part",
+        "qconfig_parse_file is modelled over a path->content function (harness: wrapped open, virtual files); the round trip of documents spread over @INCLUDE files is checked by oracle + correspondence, no theorem (ini_roundtrip is about qconfig_parse_str)",
         "section ids and `level`: nesting depth <= 255 (uint8_t level; deeper nesting is a parse error after the fix)",
         "behaviour inside an UNREGISTERED section (stale section id) is not documented and not judged",
         "C locale (strcasecmp folds ASCII letters only)",
@@ -154,6 +154,19 @@ class TheCheck(Check):
             self.expect[op] = ("ini", G.ini_expected(nodes, env))
             ops.append(op)
         sts.append(Stream("ini-grammar", ops))
+        # the same grammar spread over files: `@INCLUDE` lines are a layout of the document
+        ops = []
+        for _ in range(3000 if quick else 40000):
+            sep = rng.choice(b"====: ")
+            nodes = G.gen_ini(rng, sep, {})
+            if rng.random() < 0.15:      # the directive text inside a value is just text
+                nodes.append(G.IniNode("entry", name=b"zz", parts=[("lit", b"see @INCLUDE " + rng.choice(G.INC_NAMES[:6]))]))
+            mainpath = rng.choice([b"/V/main.conf", b"/V/main.conf", b"main.conf", b"/V/etc/q.conf"])
+            files = G.split_includes(rng, G.render_ini_lines(rng, nodes, sep), mainpath)
+            op = G.inif_op(sep, mainpath, files)
+            self.expect[op] = ("ini", G.ini_expected(nodes, {}))
+            ops.append(op)
+        sts.append(Stream("ini-include-grammar", ops))
         return sts
 
     # ---------------------------------------------------------------- oracle
@@ -166,7 +179,7 @@ class TheCheck(Check):
         if e[0] == "ini":
             got = G.parse_ini_result(line)
             if got is None:
-                return "no table: " + line[:80]
+                return "no table (%s) for a well-formed document" % line[:40]
             if got != e[1]:
                 for i, (a, b) in enumerate(zip(got, e[1])):
                     if a != b:
@@ -177,7 +190,7 @@ class TheCheck(Check):
 
     def classify(self, op, detail):
         w = op.split()
-        if w[0] == "ini":
+        if w[0] in ("ini", "inif"):
             return "qconfig:" + ("crash" if "died" in detail else "entries")
         if "bool" in detail:
             return "qaconf:bool"
